@@ -429,7 +429,10 @@ fn assumptions(prop: &str) -> Vec<&'static str> {
             v.push("partial coverage: each channel within 3/255 of the real-valued interpolation; zero and full coverage exact");
             v.push("clip and layer brackets nest LIFO across both stacks");
         }
-        "C07" => v.push("inputs stay inside the stated domain; image source transforms keep image coordinates inside the 16.16 range (C13's domain)"),
+        "C07" => {
+            v.push("inputs stay inside the stated domain; image source transforms keep image coordinates inside the 16.16 range (C13's domain)");
+            v.push("extreme uniform scales are explored up to 2^+-40 only (solid sources, user lengths divided by the scale): beyond, squares of user-space lengths overflow f32 and the stroker / dasher break wholesale (DESIGN.md 10.1, incidental)");
+        }
         "C11" => {
             v.push("strokes of curved paths under a non-identity CTM are compared geometrically (2 px margin), not bit for bit (the flattening tolerance is an implementation detail)");
             v.push("lattice correspondence of sources: only for sources whose numbers are dyadic and whose linear parts are non-negative (for these every matrix product is exact and the comparison is bit for bit)");
